@@ -238,7 +238,8 @@ impl ToTokens for DisplayImplArmFragment {
 
     let ts = match &self.content {
       VariantContent::Unit => {
-        let serde_name = &self.serde_name;
+        // the value is the format string of `write!`: literal braces have to be doubled
+        let serde_name = self.serde_name.replace('{', "{{").replace('}', "}}");
         quote! { Self::#variant_name => write!(f, #serde_name), }
       }
       VariantContent::Tuple(_) => {
